@@ -87,10 +87,73 @@ CHECKS = {
              "constructor acceptance/exception, scaling (values, freshness, Kemeny-score homogeneity), proportionality on both vectors, "
              "nickname; malformed shapes/types are enumerated.",
         design="4/C19"),
+    "C06": dict(
+        technique="fork-mode symbolic execution of parcons_partition and of ParCons (scheme symbolic, arcs of the graph of elements "
+                  "decided by solver-checked forks, ILP stand-in, recorded auxiliary); z3 refutes min-over-consistent > global min",
+        text="On every path of the partition code the solver refutes 'no optimal consensus is consistent with the partition' (min as "
+             "ite-chains over all rankings with ties, n<=4); ParCons with bounds above/below component sizes, CPLEX stand-in/absent: "
+             "consensus consistent with the reported weak partitioning = library partition, flag exactly 'nothing delegated', flagged "
+             "results proved optimal; multi-component strata up to n=7.",
+        design="4/C06",
+        note=TB + "; ILP stand-in contract; real igraph on concrete graphs"),
+    "C07": dict(
+        technique="fork-mode symbolic execution of parfront_partition (scheme symbolic, robust arcs decided by solver-checked forks); "
+                  "z3 refutes 'a ranking not strictly consistent with the partition is optimal'; exhaustive pairs for consistent_with",
+        text="Per path: partition of the universe, merge of consecutive ParCons groups, and no inconsistent ranking can be optimal for "
+             "any valid scheme on the path (n<=4 + Condorcet strata); consistent_with is compared with the stated relation on every "
+             "(partition, consensus) pair over <=3 (thorough 4) elements (declared enumeration).",
+        design="4/C07"),
+    "C10": dict(
+        technique="fork-mode symbolic execution of PickAPerm with a symbolic scheme (scheme class decided by the library's own test); "
+                  "z3 proves minimality / completeness of the returned set and the refusal rule per path",
+        text="Per enumerated dataset and flag, on every path: returned rankings are (unified) inputs, minimal among the inputs for all "
+             "schemes on the path, every missing distinct input is strictly worse, incomplete data accepted iff the scheme is a positive "
+             "multiple of the unifying scheme on both vectors; same-object histories included.",
+        design="4/C10"),
+    "C12": dict(
+        technique="fork-mode symbolic execution of BordaCount (both variants) with a symbolic scheme; exact-fraction oracle of the two "
+                  "documented regimes; z3 proves the regime/refusal matches the scheme family on each path",
+        text="Per enumerated dataset the result equals the oracle ranking of the regime the statement prescribes for the scheme family "
+             "holding on the path (proved by the solver over the whole family and all its multiples), refusal only outside the four "
+             "families on incomplete data; history with in-place removal included.",
+        design="4/C12"),
+    "C14": dict(
+        technique="fork-mode symbolic execution of the applicability predicate followed by compute_consensus_rankings on the same "
+                  "objects, for every (nested) configuration, scheme symbolic",
+        text="On every path the predicate answers a bool without failing; complete data is never refused; declared-relevant implies a "
+             "well-formed consensus on incomplete data; Borda / PickAPerm / BioConsert started from them refuse exactly when they "
+             "declared the scheme not relevant.",
+        design="4/C14"),
+    "C15": dict(
+        technique="fork-mode execution monitor: canonical snapshots of Dataset / ScoringScheme around every operation of enumerated "
+                  "operation sequences, shared objects vs fresh copies with pinned nondeterminism; solver decides path feasibility and "
+                  "score equalities",
+        text="For sampled datasets (n<=3) and every single operation plus sampled ordered pairs of operations on shared objects: inputs "
+             "unchanged after every operation, same consensus on fresh copies, deterministic algorithms repeatable. Mostly structural "
+             "per path (declared), scheme symbolic.",
+        design="4/C15"),
+    "C16": dict(
+        technique="fork-mode differential execution of Dataset mutators against a reference model over enumerated histories, removal "
+                  "sets forked, presence-rate threshold a symbolic real decided by z3",
+        text="After construction and after every step of every history of <=2 (thorough 3) mutator calls all views (buckets, positions, "
+             "domains, id maps, types, flags, matrices, unified rankings/dataset, all projections) equal the model; for the rate filter "
+             "the solver proves 'removed <=> presence/m < t' over each path's threshold region.",
+        design="4/C16"),
+    "C20": dict(
+        technique="merge-mode bounded symbolic execution of the six Markov moves and the two step functions as an inductive step "
+                  "(any vector satisfying the dense-numbering invariant, symbolic element, arbitrary random draw) + fork-mode "
+                  "execution of the generator wrappers with a havoc stub for the walk",
+        text="Every move/step preserves the invariant from any state satisfying it (n<=5, thorough 6), which covers walks of any length; "
+             "the wrappers turn any invariant-satisfying vectors into valid rankings/datasets of the requested shape, with the stub's "
+             "precondition checked at every call.",
+        design="4/C20"),
 }
 
 NOT_YET = "check not built yet in this session (see DESIGN.md section 8 for the build order)"
 NA = {
+    "C18": "the hand-written scanner needs a bounded symbolic string model (strip/split/find/slice with symbolic bounds, guarded "
+           "iteration, exceptions) that is not built; the packaged engine (CrossHair) returned 'Not confirmed' at 120-200 s on "
+           "strings of length <= 4 (DESIGN.md 1.2)",
     "C17": "Dataset equality turns on CPython set iteration order under hash collisions; every available engine concretises at "
            "hashing, so no input dimension can be left to a solver (DESIGN.md section 5)",
 }
